@@ -5,6 +5,7 @@ import (
 	"go/ast"
 	"go/token"
 	"go/types"
+	"regexp"
 	"sort"
 	"strings"
 
@@ -33,10 +34,16 @@ func init() {
 var c19Immutable = map[string]bool{"ComponentIDs": true, "ComponentTypes": true, "ComponentTypeNames": true, "NumRelations": true, "MemoryPerEntity": true}
 
 // normExpr renders e with identifiers that denote the memory-per-entity operand unified.
+var intConvRe = regexp.MustCompile(`\b(int|int32|int64|uint|uint32|uint64|uintptr)\(([^()]*)\)`)
+
 func normStatsExpr(m *core.Model, e ast.Expr) string {
 	s := m.ExprString(e)
 	for _, v := range []string{"stats.MemoryPerEntity", "memPerEntity"} {
 		s = strings.ReplaceAll(s, v, "MPE")
+	}
+	// value-preserving integer conversions do not matter for the comparison
+	for i := 0; i < 4; i++ {
+		s = intConvRe.ReplaceAllString(s, "$2")
 	}
 	return s
 }
@@ -79,6 +86,39 @@ func c19r1(c *core.Ctx) {
 				}
 				for k, v := range cn.fields {
 					fresh[k[strings.LastIndexByte(k, '.')+1:]] = normStatsExpr(m, v)
+				}
+				// a field computed from fields assigned before it (st.Memory = st.Capacity * m): in terms of their values
+				if id, isLocal := cn.node.(*ast.Ident); isLocal {
+					for round := 0; round < 3; round++ {
+						for g, gv := range fresh {
+							for f2, fv := range fresh {
+								if f2 != g {
+									gv = strings.ReplaceAll(gv, id.Name+"."+f2, fv)
+								}
+							}
+							fresh[g] = gv
+						}
+					}
+				}
+			}
+			// the fresh path may simply run the update path on a zero value
+			if len(fresh) == 0 {
+				delegates := false
+				core.InspectNoLits(p.fresh.Body, func(n ast.Node) bool {
+					if call, ok := n.(*ast.CallExpr); ok {
+						if _, isU := callTo(m, call, p.update); isU {
+							for _, a := range call.Args {
+								if u, ok := ast.Unparen(a).(*ast.UnaryExpr); ok && u.Op == token.AND && core.NamedName(m.Info.TypeOf(u.X)) == rt {
+									delegates = true
+								}
+							}
+						}
+					}
+					return true
+				})
+				if delegates {
+					c.OK("C19/R1", p.fresh.Name+" / "+p.update.Name, c.At(p.fresh.Pos()), "the fresh path runs the update path on a zero value: the two agree by construction")
+					continue
 				}
 			}
 			if len(fresh) == 0 {
@@ -173,7 +213,7 @@ func c19r1(c *core.Ctx) {
 					}
 				}
 				if call, ok := n.(*ast.CallExpr); ok {
-					if k, cal, _ := m.Callee(call); k == core.CallStatic && cal != nil && cal.Body != nil && cal != p.fresh && cal != p.update && (cal.Recv == "archetype" || cal.Recv == "") {
+					if k, cal, _ := m.Callee(call); k == core.CallStatic && cal != nil && cal.Body != nil && cal != p.fresh && cal != p.update && (cal.Obj == nil || !cal.Obj.Exported() || !isExportedName(cal.Recv)) && cal.Recv != "table" {
 						scope = append(scope, cal)
 					}
 				}
@@ -182,7 +222,14 @@ func c19r1(c *core.Ctx) {
 			found := false
 			for _, h := range scope {
 				core.InspectNoLits(h.Body, func(n ast.Node) bool {
-					if body, ok := loopOverAll(m, n, "archetypeData.freeTables"); ok {
+					body, ok := loopOverAll(m, n, "archetypeData.freeTables")
+					if !ok {
+						// the list handed in as a parameter (every call site passes the archetype's free list)
+						if rs, isR := n.(*ast.RangeStmt); isR && fieldKeyDeep(m, h, rs.X, 0) == "archetypeData.freeTables" {
+							body, ok = rs.Body, true
+						}
+					}
+					if ok {
 						capAdd, memAdd := false, false
 						ast.Inspect(body, func(x ast.Node) bool {
 							as, ok := x.(*ast.AssignStmt)
@@ -375,7 +422,7 @@ func c19r2(c *core.Ctx) {
 				val := cn.fields[k]
 				subject := "Entities." + field
 				found++
-				call, ok := ast.Unparen(m.Inline(val)).(*ast.CallExpr)
+				call, ok := ast.Unparen(m.InlineLocals(val)).(*ast.CallExpr)
 				if !ok {
 					c.Violation("C19/R2", subject, c.At(val.Pos()), "not taken from a pool accessor")
 					continue
